@@ -119,12 +119,26 @@ Theorem C12_perc_graph : forall g p kept,
 Proof. intros g p kept. split; [apply percolate_unfold|]. split; [apply perc_nodes|]. intros x y. apply perc_adj_In. Qed.
 Print Assumptions C12_perc_graph.
 
-(* perc_sir_once / equality in law of percolation_based_discrete_SIR and basic_discrete_SIR:
-   NOT a Coq theorem here.  The pathwise content (on a common symmetric table of coins both
-   functions return the same rows, histories and transmissions, and no undirected edge is
-   tested twice as an infectious-susceptible contact) is checked dynamically by harness/c12.py
-   on every run (exhaustively on small graphs); equality in law then follows by the principle
-   of deferred decisions (cited, DESIGN section 3 item 7). *)
+(* deferred decisions, pathwise: on a common symmetric table of coins (one coin per undirected
+   edge) percolation_based_discrete_SIR -- which flips every coin first, builds H and runs
+   discrete_SIR(H, H.has_edge) -- and basic_discrete_SIR -- which looks a coin up when the contact
+   is tested -- return the same rows and the same node histories, for any two iteration orders.
+   Equality IN LAW of the two functions under independent Bernoulli(p) coins then follows by the
+   principle of deferred decisions, which is CITED (DESIGN section 3 item 7), not formalised:
+   in basic_discrete_SIR no undirected edge is tested twice as an infectious-susceptible contact
+   (checked dynamically on every run by the query oracle of harness/c12.py), so testing lazily
+   with fresh coins has the law of reading a table of i.i.d. coins fixed in advance. *)
+Theorem C12_perc_sir_pathwise : forall g tt pick ord1 ord2 i0 r0 tmin tmax full fuel1 fuel2,
+  wf_inputb g i0 r0 = true -> sym_graphb g = true -> (forall u v, tt u v O = tt v u O) ->
+  perm_oracle ord1 -> perm_oracle ord2 ->
+  (length (gnodes g) < fuel1)%nat -> (length (gnodes g) < fuel2)%nat ->
+  exists outB outP,
+    basic_discrete_SIR_R g (det_rules tt pick) ord1 (Some i0) (Some r0) None tmin tmax full fuel1 = Ret outB /\
+    percolation_based_discrete_SIR_R g (det_rules tt pick) ord2 (Some i0) (Some r0) None tmin tmax full fuel2 = Ret outP /\
+    so_rows (o_sim outB) = so_rows (o_sim outP) /\
+    option_map fd_hist (so_full (o_sim outB)) = option_map fd_hist (so_full (o_sim outP)).
+Proof. exact perc_sir_pathwise. Qed.
+Print Assumptions C12_perc_sir_pathwise.
 
 (* ---- non-vacuity ---- *)
 (* path 0 - 1 - 2 - 3 plus the chord 0 - 2; contact 0->2 fails, node 3 initially recovered *)
@@ -151,6 +165,10 @@ Example C12_ex_law :
 Proof. vm_compute. reflexivity. Qed.
 Example C12_ex_edges : gedges ex_g = [(0, 1); (0, 2); (1, 2); (2, 3)]%N /\ NoDup (gedges ex_g).
 Proof. split; [vm_compute; reflexivity|]. apply nodupb_NoDup_pairs. vm_compute. reflexivity. Qed.
+Definition ex_tts (u v : node) (_ : nat) : bool := negb ((N.eqb u 0 && N.eqb v 2) || (N.eqb u 2 && N.eqb v 0)).
+Example C12_ex_sym : sym_graphb ex_g = true /\ (forall u v, ex_tts u v O = ex_tts v u O).
+Proof. split; [vm_compute; reflexivity|]. intros u v. unfold ex_tts. rewrite orb_comm. rewrite (andb_comm (N.eqb u 2)), (andb_comm (N.eqb u 0)). reflexivity. Qed.
+Print Assumptions C12_ex_sym.
 Print Assumptions C12_ex_wf.
 Print Assumptions C12_ex_ord.
 Print Assumptions C12_ex_run.
